@@ -359,6 +359,9 @@ func registerBig() {
 		return x.newBig(x.ts.Real(r), nil)
 	}
 	intrinsics["math/big.NewFloat"] = func(x *Exec, fn *ssa.Function, a []Value) Value {
+		if rv, ok := a[0].(*RealV); ok { // the float64 value is a real number: exact
+			return x.newBig(rv.T, nil)
+		}
 		f := a[0].(FloatV).F
 		r := new(big.Rat)
 		r.SetFloat64(f)
@@ -502,6 +505,28 @@ func registerBig() {
 type RealV struct {
 	T        *Term
 	Err, Mag *big.Rat
+	// GridOK: the value is statically known to be an integer multiple of 2^Grid (so that a sum or difference of two
+	// such values below 2^(Grid+53) in magnitude is representable and the float operation is exact).
+	Grid   int
+	GridOK bool
+	// Sign: +1 statically non-negative, -1 statically non-positive, 0 unknown.
+	Sign int
+}
+
+// floatGrid returns e with f = m·2^e, m an odd integer (a large e for 0), and whether |f| is a power of two.
+func floatGrid(f float64) (int, bool) {
+	if f == 0 {
+		return 1 << 20, false
+	}
+	fr, e := math.Frexp(math.Abs(f)) // |f| = fr·2^e, fr in [0.5, 1)
+	m := uint64(fr * (1 << 53))       // 53-bit integer mantissa
+	e -= 53
+	tz := 0
+	for m&1 == 0 {
+		m >>= 1
+		tz++
+	}
+	return e + tz, m == 1
 }
 
 var fpUnit = new(big.Rat).SetFrac(big.NewInt(1), new(big.Int).Lsh(big.NewInt(1), 53))
@@ -522,10 +547,12 @@ func (x *Exec) symIntToFloat(t *Term, signed bool) Value {
 	_, ihi := x.ts.Interval(t)
 	hi := new(big.Rat).SetInt(ihi)
 	v := x.ts.Int2Real(x.ts.BV2Int(t, false))
+	exact := true
 	if hi.Cmp(new(big.Rat).SetInt(new(big.Int).Lsh(big.NewInt(1), 53))) > 0 {
 		v = x.fpRound(v, hi)
+		exact = false
 	}
-	return &RealV{T: v, Err: new(big.Rat), Mag: hi}
+	return &RealV{T: v, Err: new(big.Rat), Mag: hi, Grid: 0, GridOK: exact, Sign: 1}
 }
 
 func (x *Exec) floatAsReal(v Value) *RealV {
@@ -536,12 +563,17 @@ func (x *Exec) floatAsReal(v Value) *RealV {
 		}
 		return t
 	case FloatV:
-		if t.F < 0 || math.IsNaN(t.F) || math.IsInf(t.F, 0) {
-			panic(x.errf("symbolic float arithmetic with negative/non-finite constant %v is not modelled", t.F))
+		if math.IsNaN(t.F) || math.IsInf(t.F, 0) {
+			panic(x.errf("symbolic float arithmetic with non-finite constant %v is not modelled", t.F))
 		}
 		r := new(big.Rat)
 		r.SetFloat64(t.F)
-		return &RealV{T: x.ts.Real(r), Err: new(big.Rat), Mag: r}
+		g, _ := floatGrid(t.F)
+		sg := 1
+		if t.F < 0 {
+			sg = -1
+		}
+		return &RealV{T: x.ts.Real(r), Err: new(big.Rat), Mag: new(big.Rat).Abs(r), Grid: g, GridOK: true, Sign: sg}
 	}
 	panic(x.errf("float operand %T", v))
 }
@@ -560,14 +592,62 @@ func (x *Exec) realBinop(op token.Token, a, b Value) Value {
 		return x.ts.Cmp(ORLt, rb.T, ra.T)
 	case token.GEQ:
 		return x.ts.Cmp(ORLe, rb.T, ra.T)
+	case token.EQL:
+		return x.ts.And(x.ts.Cmp(ORLe, ra.T, rb.T), x.ts.Cmp(ORLe, rb.T, ra.T))
+	case token.NEQ:
+		return x.ts.Not(x.ts.And(x.ts.Cmp(ORLe, ra.T, rb.T), x.ts.Cmp(ORLe, rb.T, ra.T)))
 	}
 	var t *Term
 	var mag *big.Rat
 	switch op {
-	case token.ADD:
-		t = x.ts.RBin(ORAdd, ra.T, rb.T)
+	case token.ADD, token.SUB:
+		if op == token.ADD {
+			t = x.ts.RBin(ORAdd, ra.T, rb.T)
+		} else {
+			t = x.ts.RBin(ORSub, ra.T, rb.T)
+		}
 		mag = new(big.Rat).Add(ra.Mag, rb.Mag)
+		if ra.GridOK && rb.GridOK {
+			// both operands on the grid 2^g, |result| <= mag < 2^(g+53): the exact result is representable
+			g := ra.Grid
+			if rb.Grid < g {
+				g = rb.Grid
+			}
+			lim := new(big.Rat).SetInt(new(big.Int).Lsh(big.NewInt(1), 53))
+			if g >= 0 {
+				lim.Mul(lim, new(big.Rat).SetInt(new(big.Int).Lsh(big.NewInt(1), uint(g))))
+			} else {
+				lim.Quo(lim, new(big.Rat).SetInt(new(big.Int).Lsh(big.NewInt(1), uint(-g))))
+			}
+			if g > -1000 && g < 1000 && mag.Cmp(lim) < 0 {
+				sg := 0
+				sb := rb.Sign
+				if op == token.SUB {
+					sb = -sb
+				}
+				if ra.Sign == sb {
+					sg = sb
+				}
+				return &RealV{T: t, Err: new(big.Rat), Mag: mag, Grid: g, GridOK: true, Sign: sg}
+			}
+		}
 	case token.MUL, token.QUO:
+		// multiplication / division by a constant power of two (either sign) is exact (magnitudes are far from
+		// overflow and underflow)
+		if cb, ok := b.(FloatV); ok && cb.F != 0 {
+			if g, pow2 := floatGrid(cb.F); pow2 && g > -500 && g < 500 {
+				rop, shift := ORMul, g
+				if op == token.QUO {
+					rop, shift = ORDiv, -g
+				}
+				return &RealV{T: x.ts.RBin(rop, ra.T, rb.T), Err: new(big.Rat), Mag: new(big.Rat).Mul(ra.Mag, ratPow2(shift)), Grid: ra.Grid + shift, GridOK: ra.GridOK, Sign: ra.Sign * rb.Sign}
+			}
+		}
+		if ca, ok := a.(FloatV); ok && op == token.MUL && ca.F != 0 {
+			if g, pow2 := floatGrid(ca.F); pow2 && g > -500 && g < 500 {
+				return &RealV{T: x.ts.RBin(ORMul, ra.T, rb.T), Err: new(big.Rat), Mag: new(big.Rat).Mul(rb.Mag, ratPow2(g)), Grid: rb.Grid + g, GridOK: rb.GridOK, Sign: ra.Sign * rb.Sign}
+			}
+		}
 		_, bc := b.(FloatV)
 		_, ac := a.(FloatV)
 		if !bc && !(ac && op == token.MUL) {
@@ -587,7 +667,21 @@ func (x *Exec) realBinop(op token.Token, a, b Value) Value {
 		panic(x.errf("symbolic float operation %s is not modelled", op))
 	}
 	mag.Mul(mag, fpSlack)
-	return &RealV{T: x.fpRound(t, mag), Err: new(big.Rat), Mag: mag}
+	// (rounding to nearest keeps the sign)
+	sg := 0
+	switch op {
+	case token.ADD:
+		if ra.Sign == rb.Sign {
+			sg = ra.Sign
+		}
+	case token.SUB:
+		if ra.Sign == -rb.Sign {
+			sg = ra.Sign
+		}
+	case token.MUL, token.QUO:
+		sg = ra.Sign * rb.Sign
+	}
+	return &RealV{T: x.fpRound(t, mag), Err: new(big.Rat), Mag: mag, Sign: sg}
 }
 
 func (x *Exec) convertReal(r *RealV, to types.Type) Value {
@@ -598,13 +692,30 @@ func (x *Exec) convertReal(r *RealV, to types.Type) Value {
 		return r
 	}
 	if isIntT(to) {
-		if r.Err != nil {
-			// the float value is non-negative (built from non-negative operands): truncation = floor
-			x.path = append(x.path, x.ts.Cmp(ORLe, x.ts.Real(new(big.Rat)), r.T))
+		// truncation towards zero: floor for a non-negative value, -floor(-v) for a negative one
+		if r.Sign > 0 {
+			return x.ts.Int2BV(x.ts.Floor(r.T), intWidth(to))
 		}
-		return x.ts.Int2BV(x.ts.Floor(r.T), intWidth(to))
+		z := x.ts.Real(new(big.Rat))
+		negfl := x.ts.IBin(OISub, x.ts.IntI(0), x.ts.Floor(x.ts.RBin(ORSub, z, r.T)))
+		return x.ts.Int2BV(x.ts.Ite(x.ts.Cmp(ORLt, r.T, z), negfl, x.ts.Floor(r.T)), intWidth(to))
 	}
 	panic(x.errf("convert real to %s", to))
+}
+
+func ratPow2(e int) *big.Rat {
+	p := new(big.Rat).SetInt(new(big.Int).Lsh(big.NewInt(1), uint(abs(e))))
+	if e < 0 {
+		p.Inv(p)
+	}
+	return p
+}
+
+func abs(a int) int {
+	if a < 0 {
+		return -a
+	}
+	return a
 }
 
 // SymString is a string with symbolic bytes (rare; only produced by string([]byte) on symbolic data).
